@@ -6,7 +6,7 @@ tag = sys.argv[3] if len(sys.argv) > 3 else ""      # e.g. r2 for a second round
 V = os.path.dirname(os.path.dirname(os.path.abspath(__file__)))
 for diff in sorted(glob.glob(os.path.join(out, "*.diff"))):
     x = os.path.basename(diff)[:-5]
-    d = os.path.join(V, "seeded", f"{pid}{tag}-{x}")
+    d = os.path.join(V, os.environ.get("SEED_ROOT", "seeded"), f"{pid}{tag}-{x}")
     os.makedirs(d, exist_ok=True)
     shutil.copy(diff, os.path.join(d, "patch.diff"))
     shutil.copy(os.path.join(out, f"{x}_demo.py"), os.path.join(d, "demo.py"))
